@@ -40,13 +40,15 @@ Section NR.
   Variables ns_tol ns_min ns_max : T.
 
   (* the code after the while loop: x[0] = ns; re-evaluation unless the exit
-     was forced at a boundary; warnflag 1 when niter == max_steps *)
+     was forced at a boundary; warnflag 2 for a NaN value; warnflag 1 when
+     niter == max_steps *)
   Definition nr_finish (max_steps niter : Z) (ns step : T) (flag : Z)
              (at_boundary : bool) (fcur : T) : nrres T :=
-    let flag' := if nr_maxed niter max_steps then nr_flag_maxed else flag in
-    if nr_reeval at_boundary
-    then mkres ns (fst3 (obj ns)) flag' niter step [ns]
-    else mkres ns fcur flag' niter step [].
+    let f := if nr_reeval at_boundary then fst3 (obj ns) else fcur in
+    (* a function value that is not a number: warnflag 2 *)
+    let flag1 := if nr_f_nan N f then nr_flag_fnan else flag in
+    let flag' := if nr_maxed niter max_steps then nr_flag_maxed else flag1 in
+    mkres ns f flag' niter step (if nr_reeval at_boundary then [ns] else []).
 
   Definition nr_clip (ns : T) : T :=
     if nr_clip_lo N ns ns_min then ns_min
@@ -112,7 +114,9 @@ Section Scan.
         let best' := match best with
                      | None => Some (x, r)
                      | Some (bx, br) =>
-                         if scan_better N (r_f r) (r_f br) then Some (x, r) else best
+                         (* a NaN best is replaced by any later step *)
+                         if scan_best_nan N (r_f br) || scan_better N (r_f r) (r_f br)
+                         then Some (x, r) else best
                      end in
         scan_loop more i0 rest best' nt
     end.
@@ -214,16 +218,19 @@ Definition minimize_scan {T} (N : Num T) (func : list T -> T * T * T)
     (fun _ => Err ValueError) bounds uniform max_reps initials.
 
 (* negative_llhratio_func_nr1d_ns: (-f, -grads[ns_pidx], -grad2_ns) *)
-Definition neg_obj {T} (N : Num T) (llh : list T -> T * T * T) (x : list T) : T * T * T :=
-  (* ns is fit parameter 0 of the vector model: NR1dNsMinimizerImpl varies x[0] *)
-  let '(f, g, g2) := llh x in (mx_neg_f N f, mx_neg_grad N 0%Z g, mx_neg_grad2 N g2).
+Definition neg_obj {T} (N : Num T) (ns_pidx : Z) (llh : list T -> T * T * T) (x : list T) : T * T * T :=
+  (* llh x = (log Lambda, d/d(parameter ns_pidx), d2/d(parameter ns_pidx)2) at x *)
+  let '(f, g, g2) := llh x in (mx_neg_f N f, mx_neg_grad N ns_pidx g, mx_neg_grad2 N g2).
 
 (* TCLLHRatio.maximize with an NR minimiser: (log_lambda_max, fitparam_values, status) *)
-Definition maximize_nr {T} (N : Num T) (llh : list T -> T * T * T)
+(* ns_pidx = pmm.get_gflp_idx('ns'): NR1dNsMinimizerImpl varies x[0], so the method raises unless ns is the
+   first global floating parameter *)
+Definition maximize_nr {T} (N : Num T) (ns_pidx : Z) (llh : list T -> T * T * T)
            (ns_tol : T) (max_steps max_reps : Z) (bounds : list (T * T))
            (uniform : Z -> list T) (initials : list T)
   : res (T * list T * nrres T) :=
-  do m <- minimize_nr N (neg_obj N llh) ns_tol max_steps max_reps bounds uniform initials;
+  if mx_ns_not_first ns_pidx then Err ValueError else
+  do m <- minimize_nr N (neg_obj N ns_pidx llh) ns_tol max_steps max_reps bounds uniform initials;
   let '(x, fmin, st, _) := m in Ok (mx_llmax_nr N fmin, x, st).
 
 (* LLHRatio.maximize with any other implementation *)
@@ -248,9 +255,10 @@ Definition closure_nr {T V Rc : Type} (N : Num T) (mk : V -> Rc) (ev : V -> Rc -
   (mx_neg_f N f, mx_neg_grad N ns_pidx (grads (mx_neg_grad_idx0 N ns_pidx)), mx_neg_grad2 N (g2 ns ns_pidx rc)).
 
 (* TCLLHRatio.maximize with the NR + scan minimiser *)
-Definition maximize_scan {T} (N : Num T) (llh : list T -> T * T * T)
+Definition maximize_scan {T} (N : Num T) (ns_pidx : Z) (llh : list T -> T * T * T)
            (ns_tol : T) (max_steps max_reps : Z) (bounds : list (T * T)) (p2s : list T)
            (uniform : Z -> list T) (initials : list T)
   : res (T * list T * nrres T) :=
-  do m <- minimize_scan N (neg_obj N llh) ns_tol max_steps max_reps bounds p2s uniform initials;
+  if mx_ns_not_first ns_pidx then Err ValueError else
+  do m <- minimize_scan N (neg_obj N ns_pidx llh) ns_tol max_steps max_reps bounds p2s uniform initials;
   let '(x, fmin, st, _) := m in Ok (mx_llmax_nr N fmin, x, st).
